@@ -328,6 +328,42 @@ theorem segment_roundtrip (s : List Seg) (hne : s ≠ []) (h64 : ∀ x ∈ s, x.
         have := ih (by simp)
         omega
 
+/-! ### Factory / builder entry points -/
+
+/-- `BuildAdjacencyMapGraph(desc)` and `util.BuildGraph(NewCSRDigraphBuilder, desc)` present the SAME graph for every
+adjacency description: its nodes are every key of the map — whatever its out-list, empty and nil included (isolated
+nodes) — and every destination; its edges are the listed pairs; node counts and edge counts agree.
+(`descOps desc` is what both factories do: `AddNode(src)`, then `AddNode(dst); AddEdge(src, dst)` per destination.) -/
+theorem factories_eq (desc : Desc) :
+    let ops := descOps desc
+    let g := G.ofOps ops
+    Presents (AdjMap.build ops).adjacent g ∧ Presents (Csr.ofOps ops).adjacent g ∧
+    (∀ n, n ∈ g.nodes ↔ ∃ kv ∈ desc, n = kv.1 ∨ n ∈ kv.2) ∧
+    (∀ s t, HasEdge g.edges s t ↔ ∃ kv ∈ desc, kv.1 = s ∧ t ∈ kv.2) ∧
+    (∀ kv ∈ desc, kv.1 ∈ (AdjMap.build ops).nodes ∧ kv.1 ∈ (Csr.ofOps ops).nodes) ∧
+    (AdjMap.build ops).numNodes = (Csr.ofOps ops).numNodes ∧ (AdjMap.build ops).numEdges = (Csr.ofOps ops).numEdges := by
+  intro ops g
+  have hn := numNodes_eq ops
+  have hnodes := desc_nodes desc
+  refine ⟨adjmap_adj_eq ops, csr_adj_eq ops, hnodes, desc_edges desc, ?_, hn.2.2.2.2.2.2.1,
+    (AdjMap.numEdges_spec (AdjMap.rel_build ops)).trans (Csr.numEdges_spec (CsrB.rel_ofOps ops)).symm⟩
+  intro kv hkv
+  have : kv.1 ∈ g.nodes := (hnodes kv.1).mpr ⟨kv, hkv, Or.inl rfl⟩
+  exact ⟨(hn.1.2 kv.1).mpr this, (hn.2.1.2 kv.1).mpr this⟩
+
+/-- `FetchDirectedGraph` / `FetchFilteredDirectedGraph`: the CSR digraph of the selected relationships presents exactly
+those (start, end) pairs; its nodes are their end points and nothing else. -/
+theorem fetch_eq (sel : Edge → Bool) (edges : List Edge) :
+    let ops := fetchOps sel edges
+    let g := G.ofOps ops
+    Presents (Csr.ofOps ops).adjacent g ∧
+    (∀ n, n ∈ (Csr.ofOps ops).nodes ↔ ∃ e ∈ edges, sel e = true ∧ (n = e.start ∨ n = e.stop)) ∧
+    (∀ s t, HasEdge g.edges s t ↔ ∃ e ∈ edges, sel e = true ∧ e.start = s ∧ e.stop = t) := by
+  intro ops g
+  refine ⟨csr_adj_eq ops, fun n => ?_, fetch_edges sel edges⟩
+  rw [(numNodes_eq ops).2.1.2 n]
+  exact fetch_nodes sel edges n
+
 /-! ### Projection handles: nested projections are immutable values -/
 
 /-- NON-INTERFERENCE: whatever happens after a handle was taken — further store operations, `DeleteEdge`, any number
@@ -764,6 +800,10 @@ example :
 -- the oracle on the demo graph: 7 reaches 3 (1 step), 7 and 5 (2), 2^40 (3); 9 reaches nothing
 example : naiveDists (fun v => (G.ofOps demoOps).adj v .out) 7 6 = [(3, 1), (5, 2), (7, 2), (1099511627776, 3)] ∧
           naiveReach (fun v => (G.ofOps demoOps).adj v .out) 9 6 = [] := by decide
+-- factories: key 9 with an empty list and key 8 with a nil list (both `[]` in the model) are nodes of both containers
+example : (AdjMap.build (descOps [(7, [3, 3]), (9, []), (8, []), (4294967296, [7])])).nodes = [3, 7, 8, 9, 4294967296] ∧
+          (Csr.ofOps (descOps [(7, [3, 3]), (9, []), (8, []), (4294967296, [7])])).numNodes = 5 ∧
+          (Csr.ofOps (fetchOps (fun e => e.id % 2 == 1) [⟨11, 1, 2⟩, ⟨12, 2, 3⟩])).nodes = [1, 2] := by decide
 -- `IsDist` is not vacuous: 5 is at distance 2 from 7, and not at distance 1
 example : (5 ∈ walkEnds (fun v => (G.ofOps demoOps).adj v .out) 7 2) ∧ ¬ (5 ∈ walkEnds (fun v => (G.ofOps demoOps).adj v .out) 7 1) := by decide
 
